@@ -1,4 +1,4 @@
-"""D25 (C08, first clause) -- a re-used ServiceInfo is never withdrawn under its old name.
+"""D27 (C08, first clause) -- a re-used ServiceInfo is never withdrawn under its old name.
 
     task = await zc.async_unregister_service(info)
     await zc.async_register_service(info, allow_name_change=True)      # same object, goodbye task not awaited first
